@@ -4,6 +4,7 @@
    only  target.merge(other)  and what it observed; whether that is a Merge or a MergeRefused is for the specification
    to say.  Each trace carries its own source descriptors. *)
 EXTENDS LibraryMerge, IOUtils, TLCExt
+IdOf5  == <<1, 2, 1, 2, 1>>
 Traces == ndJsonDeserialize(IOEnv.TRACE_FILE)
 NT     == Len(Traces)
 VARIABLES tid, l
@@ -24,7 +25,8 @@ Step == A.n = "merge" /\ (Merge(A.t, A.o) \/ MergeRefused(A.t, A.o))
 Same == Obs'.libs = Ev.post.libs /\ ((err' = "") <=> (Ev.post.err = ""))
 ObsMatch == \/ Same
             \/ /\ ~Same
-               /\ PrintT(ToJson([mismatch |-> Traces[tid].id, at |-> l, expected |-> [libs |-> Obs'.libs, err |-> err']]))
+               /\ PrintT(ToJson([mismatch |-> Traces[tid].id, at |-> l, expected |-> [libs |-> Obs'.libs, err |-> err',
+                                                                                 asb |-> AsBuiltOf([n |-> IF err' = "" THEN "Merge" ELSE "MergeRefused", t |-> A.t, o |-> A.o], err')]]))
                /\ FALSE
 TNext == /\ l <= Len(Traces[tid].ev) /\ l' = l + 1 /\ tid' = tid
          /\ Step
